@@ -9,13 +9,13 @@ from vf.models import scores as SM
 from vf.scorers import SCORER_NAMES, desc_from_spec, make_scorer
 from vf.spec import S, build, short
 
-SHARDS = {"quick": 8, "thorough": 16}
+SHARDS = {"quick": 16, "thorough": 16}
 WATCHDOG = {"quick": 1800, "thorough": 10800}
 CASES = {"quick": 70, "thorough": 900}
 FLOORS = {
-    "quick": {"distinct_nontrivial": 250, "scorer_pairs": 800, "detector_pairs": 200,
-              "pairs[permute]": 200, "pairs[shift]": 150, "pairs[scale]": 40, "pairs[reverse]": 1000,
-              "discrete_outputs_compared": 120},
+    "quick": {"distinct_nontrivial": 3500, "scorer_pairs": 1500, "detector_pairs": 2200,
+              "pairs[permute]": 820, "pairs[shift]": 370, "pairs[scale]": 200, "pairs[reverse]": 2300,
+              "discrete_outputs_compared": 350},
     "thorough": {"distinct_nontrivial": 5000, "scorer_pairs": 15000, "detector_pairs": 8000},
 }
 ANCHORS = [
